@@ -141,6 +141,22 @@ func parseReqs(s string) ([]routeReq, bool) {
 	return out, true
 }
 
+// ringAddr is the single endpoint of hashring i: realistic address forms, several hashrings on
+// one host differing in the port only.
+func ringAddr(i int) string {
+	switch i % 5 {
+	case 0:
+		return fmt.Sprintf("receive.example.org:%d", 10901+i)
+	case 1:
+		return fmt.Sprintf("http://receive.example.org:%d", 19291+i)
+	case 2:
+		return fmt.Sprintf("[fd00::1]:%d", 10901+i)
+	case 3:
+		return fmt.Sprintf("ring-%d", i)
+	}
+	return fmt.Sprintf("10.0.0.1:%d", 10901+i)
+}
+
 func newMulti(cs []routeCfg) (receive.Hashring, error) {
 	cfg := make([]receive.HashringConfig, len(cs))
 	for i, c := range cs {
@@ -148,7 +164,7 @@ func newMulti(cs []routeCfg) (receive.Hashring, error) {
 			Hashring:          fmt.Sprintf("ring-%d", i),
 			Tenants:           c.tenants,
 			TenantMatcherType: receive.VerifTenantMatcher(c.matcher()),
-			Endpoints:         []receive.Endpoint{{Address: fmt.Sprintf("ring-%d", i)}},
+			Endpoints:         []receive.Endpoint{{Address: ringAddr(i)}},
 		}
 	}
 	return receive.NewMultiHashring(receive.AlgorithmHashmod, 1, cfg, prometheus.NewRegistry())
@@ -166,7 +182,12 @@ func askRoute(h receive.Hashring, tenant string) string {
 		}
 		return "E:" + strings.ReplaceAll(err.Error(), " ", "_")
 	}
-	return strings.TrimPrefix(e.Address, "ring-")
+	for i := 0; i < 16; i++ {
+		if ringAddr(i) == e.Address {
+			return strconv.Itoa(i)
+		}
+	}
+	return "?" + e.Address
 }
 
 // firstMatch is the property restated: first configuration that accepts the tenant.
